@@ -141,6 +141,15 @@ struct Case {
     text: Vec<u8>,
 }
 
+fn is_ident(t: &str) -> bool {
+    const KW: &[&str] = &["const", "struct", "enum", "fn", "let", "if", "else", "match", "mut", "as", "pub", "for", "in", "true", "false", "usize", "u8", "u16", "u32", "u64", "i8", "i16", "i32", "i64", "bool", "_"];
+    let mut cs = t.chars();
+    match cs.next() {
+        Some(c) if c.is_ascii_alphabetic() || c == '_' => cs.all(|c| c.is_ascii_alphanumeric() || c == '_') && !KW.contains(&t),
+        _ => false,
+    }
+}
+
 fn is_size_position(lx: &[(String, String)], i: usize) -> bool {
     let prev = if i > 0 { lx[i - 1].1.as_str() } else { "" };
     let next = lx.get(i + 1).map(|x| x.1.as_str()).unwrap_or("");
@@ -182,6 +191,12 @@ pub fn run(tier: Tier) -> i32 {
             cases.push(Case { kind: "char-prefix", origin: name.clone(), text: chars[..k].iter().collect::<String>().into_bytes() });
         }
         let heavy = tier == Tier::Thorough || ci % 3 == 0;
+        let mut idents: Vec<String> = lx.iter().map(|x| x.1.clone()).filter(|t| is_ident(t)).collect();
+        idents.sort();
+        idents.dedup();
+        if idents.len() > 24 && tier == Tier::Quick {
+            idents.truncate(24);
+        }
         for i in 0..lx.len() {
             // deletion, duplication, adjacent swap
             let mut d = lx.clone();
@@ -202,6 +217,17 @@ pub fn run(tier: Tier) -> i32 {
                 let swapped_into_size = is_size_position(&d, i) || is_size_position(&d, i + 1);
                 if !swapped_into_size {
                     cases.push(Case { kind: "swap", origin: name.clone(), text: join(&d, &tail).into_bytes() });
+                }
+            }
+            // identifier cross-substitution: every identifier token replaced by every other
+            // identifier of the same program (recursion, shadowing, type confusion, ...)
+            if is_ident(&lx[i].1) {
+                for other in &idents {
+                    if *other != lx[i].1 {
+                        let mut d = lx.clone();
+                        d[i].1 = other.clone();
+                        cases.push(Case { kind: "identifier-swap", origin: name.clone(), text: join(&d, &tail).into_bytes() });
+                    }
                 }
             }
             if heavy {
@@ -377,7 +403,7 @@ pub fn run(tier: Tier) -> i32 {
         coverage: json!({
             "evaluations": evaluated.load(Ordering::Relaxed),
             "distinct_nontrivial": distinct_errors.lock().unwrap().len() as u64 + outcomes.len() as u64,
-            "rule": "corpus = repository example programs, error examples, documentation code blocks, generated programs of families S/D/P and a hand-written program using every syntactic form; for each: every token-boundary prefix, every character prefix (every 7th for long files), every single-token deletion, duplication, adjacent swap and substitution by each token of an alphabet of keywords / punctuation incl. comment delimiters / identifiers / boundary numbers (big numbers are not placed in array-size or range positions); all token strings of length <= L over a 37-token alphabet; every range pattern a{suffix}..b{suffix} / ..= over a 14-number boundary alphabet (0, 1, type minima/maxima and their neighbours) x suffix pairs x scrutinee types; all byte strings of length <= 2 over printable ASCII + NUL, 0x80, 0xff, multi-byte characters, CR/LF/TAB, alone and inside a program; the same perturbations of literal strings given to parse_arg; each case runs check + compile of every pub fn + prettify in an isolated worker with a deadline and an address-space limit; distinct_nontrivial = number of distinct (outcome class, perturbation kind) pairs observed",
+            "rule": "corpus = repository example programs, error examples, documentation code blocks, generated programs of families S/D/P and a hand-written program using every syntactic form; for each: every token-boundary prefix, every character prefix (every 7th for long files), every single-token deletion, duplication, adjacent swap, every identifier token replaced by every other identifier of the same program, and substitution by each token of an alphabet of keywords / punctuation incl. comment delimiters / identifiers / boundary numbers (big numbers are not placed in array-size or range positions); all token strings of length <= L over a 37-token alphabet; every range pattern a{suffix}..b{suffix} / ..= over a 14-number boundary alphabet (0, 1, type minima/maxima and their neighbours) x suffix pairs x scrutinee types; all byte strings of length <= 2 over printable ASCII + NUL, 0x80, 0xff, multi-byte characters, CR/LF/TAB, alone and inside a program; the same perturbations of literal strings given to parse_arg; each case runs check + compile of every pub fn + prettify in an isolated worker with a deadline and an address-space limit; distinct_nontrivial = number of distinct (outcome class, perturbation kind) pairs observed",
             "samples": [
                 {"kind": cases[1].kind, "origin": cases[1].origin, "text": String::from_utf8_lossy(&cases[1].text)},
                 {"kind": cases[n_frontend / 2].kind, "origin": cases[n_frontend / 2].origin, "text": String::from_utf8_lossy(&cases[n_frontend / 2].text)},
